@@ -5,6 +5,7 @@ Property theorems only; helper lemmas live in `Lemmas/Schedule.lean`.
 -/
 import FairModel.Lemmas.Schedule
 import FairModel.Lemmas.SchedLifted
+import FairModel.Lemmas.AdvStep
 
 namespace C17
 open Schedule
@@ -400,6 +401,30 @@ theorem src_stops_at_first_true {σ : Type} (n k e : Nat) (bs ep mi : Option Nat
     rw [hne] at hsch
     have := stops_at_first_true n k bs ep mi (anyStop cbs) steps e hsch he hk0 hk hs hbefore hmi
     rw [h3, this.1]
+
+/-! #### one `fit` = the fold of the CONCRETE training step over the scheduled slices -/
+
+/-- `fit` as interpreted from the source, run with the concrete `train_step` of the engine (`AdvStep.trainStep`: the
+    projected-gradient rule for every predictor tensor, the plain gradient for every adversary tensor, any optimisers,
+    autograd as the parameter `G`): the model after `fit` is the left fold of that step over the scheduled slices — the
+    same model as after issuing these slices one by one through `partial_fit`. -/
+theorem src_fit_is_fold_of_train_steps {τP τA : Type} (eng : Adversarial.Mat → Adversarial.Mat → Rat → Option Adversarial.Mat)
+    (α : Rat) (optP : AdvStep.Opt τP) (optA : AdvStep.Opt τA)
+    (G : List Adversarial.Mat → List Adversarial.Mat → Nat → Nat → AdvStep.Grads)
+    (n : Nat) (bs ep mi : Option Nat) (cbs : List (Int → Bool)) (m0 : AdvStep.Model τP τA)
+    (hn : 0 < n) (hbs : ∀ k, bs = some k → 0 < k) :
+    match schedule n bs ep mi (!cbs.isEmpty) (anyStop cbs) with
+    | none => fitSrc n (enc bs) (enc ep) (enc mi) cbs (AdvStep.trainStep eng α optP optA G) (some m0) = none
+    | some steps => ∃ st, fitSrc n (enc bs) (enc ep) (enc mi) cbs (AdvStep.trainStep eng α optP optA G) (some m0) = some st ∧
+        st.state = steps.foldl (fun m s => AdvStep.trainStep eng α optP optA G m s.lo s.hi) (some m0) ∧
+        st.nIter = (steps.length : Int) := by
+  have h := src_fit_eq_fold_partial_fit n bs ep mi cbs (AdvStep.trainStep eng α optP optA G) (some m0) hn hbs
+  cases hs : schedule n bs ep mi (!cbs.isEmpty) (anyStop cbs) with
+  | none => rw [hs] at h; exact h
+  | some steps =>
+    rw [hs] at h
+    obtain ⟨st, h1, h2, h3, _⟩ := h
+    exact ⟨st, h1, h2, h3⟩
 
 /-! #### predict, from the lifted decision rules -/
 
